@@ -87,6 +87,7 @@ rule('slstat', 'callstat', 'call_n')
 rule('slstat', 'return', q('return'), 'retvals')
 rule('slstat', 'break', q('break'))
 rule('slstat', 'goto', q('goto'), q('GNAME'))
+rule('slstat', 'qprint', q('?'), 'explist')     # last statement of its line: the arguments run to the line end
 rule('step_opt', 'step_none')
 rule('step_opt', 'step_some', q(','), 'exp')
 rule('funcname', 'funcname', 'Name', 'dotnames', 'method_opt')
@@ -804,14 +805,18 @@ class _Renderer(object):
             out.append(self.node(cur[2][0]))
             if lab == 'sl_one':
                 break
-            if out[-1][0] in ('return', 'break'):
+            if out[-1][0] in ('return', 'break', 'qprint'):
                 self.p.valid = False
-                self.p.why = 'statement after return/break in short-if body'
+                self.p.why = 'statement after return/break/? in short-if body'
             cur = cur[2][1]
         return out
 
     def s_qprint(self, kids):
         p = self.p
+        if self.scope is not None and len(kids) == 2:
+            # inside a short-if line: shares that line's scope
+            self.emit('?')
+            return ('qprint', self.node(kids[1]))
         if p.toks:
             p.must_nl.add(len(p.toks))     # '?' starts its line
         if self.scope is not None:
@@ -1096,8 +1101,8 @@ def embed_variants(nt, tree):
 
 
 # ---------------------------------------------------------------- text assembly and layouts
-SEPARATORS = [b'', b' ', b'\t', b'   ', b'\n', b'\r\n', b'\n\n \n', b' -- c\n', b'//c\n', b' --[[c]] ', b'--[[c\nd]]',
-              b' \n  ', b'\t-- c\n\t']
+SEPARATORS = [b'', b' ', b'\t', b'   ', b'\n', b'\r\n', b'\r', b'\n\n \n', b' -- c\n', b'//c\n', b' --[[c]] ', b'--[[c\nd]]',
+              b' \n  ', b'\t-- c\n\t', b' // c\r']
 
 
 def has_nl(sep):
